@@ -11,8 +11,8 @@ from liquid2 import Expression
 from liquid2 import RenderContext
 from liquid2.builtin import Filter
 from liquid2.builtin import KeywordArgument
+from liquid2.builtin import Literal
 from liquid2.builtin import PositionalArgument
-from liquid2.builtin import StringLiteral
 from liquid2.exceptions import LiquidTypeError
 from liquid2.filter import int_arg
 from liquid2.messages import MESSAGES
@@ -28,6 +28,16 @@ __all__ = [
     "PGetText",
     "NPGetText",
 ]
+
+
+def literal_text(expr: Expression | None) -> str | None:
+    """Return the message text a literal stands for, or `None` if it's not a literal.
+
+    A number or a Boolean is looked up by its string form at render time.
+    """
+    if isinstance(expr, Literal):
+        return to_liquid_string(expr.value)
+    return None
 
 
 class BaseTranslateFilter:
@@ -173,14 +183,15 @@ class Translate(BaseTranslateFilter, TranslatableFilter):
         _filter: Filter,
         lineno: int,
     ) -> MessageText | None:
-        if not isinstance(left, StringLiteral):
+        text = literal_text(left)
+        if text is None:
             return None
 
         if not _filter.args:
             return MessageText(
                 lineno=lineno,
                 funcname="gettext",
-                message=(left.value,),
+                message=(text,),
             )
 
         # The message context is the first positional argument, wherever it is.
@@ -194,23 +205,26 @@ class Translate(BaseTranslateFilter, TranslatableFilter):
 
         # Translate our filters into standard *gettext argument specs.
 
-        if isinstance(plural, StringLiteral):
-            if isinstance(_context, StringLiteral):
+        plural_text = literal_text(plural)
+        context_text = literal_text(_context)
+
+        if plural_text is not None:
+            if context_text is not None:
                 funcname = "npgettext"
-                message: MESSAGES = ((_context.value, "c"), left.value, plural.value)
+                message: MESSAGES = ((context_text, "c"), text, plural_text)
             else:
                 funcname = "ngettext"
-                message = (left.value, plural.value)
+                message = (text, plural_text)
         elif plural is not None:
             # Don't attempt to extract any messages if plural is given
-            # but not a string literal
+            # but not a literal
             return None
-        elif isinstance(_context, StringLiteral):
+        elif context_text is not None:
             funcname = "pgettext"
-            message = ((_context.value, "c"), left.value)
+            message = ((context_text, "c"), text)
         else:
             funcname = "gettext"
-            message = (left.value,)
+            message = (text,)
 
         return MessageText(
             lineno=lineno,
@@ -254,13 +268,14 @@ class GetText(BaseTranslateFilter, TranslatableFilter):
         _filter: Filter,
         lineno: int,
     ) -> MessageText | None:
-        if not isinstance(left, StringLiteral):
+        text = literal_text(left)
+        if text is None:
             return None
 
         return MessageText(
             lineno=lineno,
             funcname=self.name,
-            message=(left.value,),
+            message=(text,),
         )
 
 
@@ -314,15 +329,16 @@ class NGetText(BaseTranslateFilter, TranslatableFilter):
         if len(positional) < 1:
             return None
 
-        plural = positional[0].value
+        text = literal_text(left)
+        plural = literal_text(positional[0].value)
 
-        if not isinstance(left, StringLiteral) or not isinstance(plural, StringLiteral):
+        if text is None or plural is None:
             return None
 
         return MessageText(
             lineno=lineno,
             funcname=self.name,
-            message=(left.value, plural.value),
+            message=(text, plural),
         )
 
 
@@ -369,15 +385,16 @@ class PGetText(BaseTranslateFilter, TranslatableFilter):
         if len(positional) < 1:
             return None
 
-        ctx = positional[0].value
+        text = literal_text(left)
+        ctx = literal_text(positional[0].value)
 
-        if not isinstance(left, StringLiteral) or not isinstance(ctx, StringLiteral):
+        if text is None or ctx is None:
             return None
 
         return MessageText(
             lineno=lineno,
             funcname=self.name,
-            message=((ctx.value, "c"), left.value),
+            message=((ctx, "c"), text),
         )
 
 
@@ -441,20 +458,17 @@ class NPGetText(BaseTranslateFilter, TranslatableFilter):
         if len(positional) < 2:  # noqa: PLR2004
             return None
 
-        ctx = positional[0].value
-        plural = positional[1].value
+        text = literal_text(left)
+        ctx = literal_text(positional[0].value)
+        plural = literal_text(positional[1].value)
 
-        if (
-            not isinstance(left, StringLiteral)
-            or not isinstance(plural, StringLiteral)
-            or not isinstance(ctx, StringLiteral)
-        ):
+        if text is None or plural is None or ctx is None:
             return None
 
         return MessageText(
             lineno=lineno,
             funcname=self.name,
-            message=((ctx.value, "c"), left.value, plural.value),
+            message=((ctx, "c"), text, plural),
         )
 
 
